@@ -30,6 +30,7 @@ type hcall struct {
 }
 
 type hdef struct {
+	late   bool // registered while traffic is already flowing (from inside a handler or by another task)
 	modify bool
 	id     int
 	dir    string
@@ -165,6 +166,22 @@ func c19(w *World) {
 		regs = append(regs[:k], regs[k+1:]...)
 	}
 
+	// registrations that happen while messages are being dispatched
+	lateInside := w.W.Chance(1, 3)
+	lateTask := w.W.Chance(1, 3)
+	lateDone := false
+	if lateInside {
+		router.HandleOutgoing(simplefixgo.AllMsgTypes, func(m simplefixgo.SendingMessage) bool {
+			if !lateDone {
+				lateDone = true
+				d := mk("out", true, "")
+				d.late, d.refuse = true, map[int]bool{}
+				regOut(d) // a handler registers another one in the middle of a dispatch
+				w.Probe("registered_during_dispatch")
+			}
+			return true
+		})
+	}
 	sc.P.Take()
 	wireBefore := len(sc.P.Msgs())
 
@@ -198,6 +215,18 @@ func c19(w *World) {
 				}
 			}
 			done++
+		})
+	}
+	if lateTask {
+		simrt.GoHarness("late-registration", func() {
+			simrt.Sleep(time.Duration(w.W.Draw(300)) * time.Millisecond)
+			d := mk("out", true, "")
+			d.late, d.refuse = true, map[int]bool{}
+			regOut(d)
+			d2 := mk("in", true, "")
+			d2.late, d2.refuse = true, map[int]bool{}
+			regIn(d2)
+			w.Probe("registered_during_traffic")
 		})
 	}
 	// inbound traffic meanwhile
@@ -351,12 +380,18 @@ func c19(w *World) {
 			typ := calls[0].typ
 			want := 0
 			for _, d := range defs {
-				if d.dir == "out" && (d.all || d.typ == typ) {
+				if d.dir == "out" && !d.late && (d.all || d.typ == typ) {
 					want++
 				}
 			}
-			if _, ok := wireBySeq[n]; ok && len(calls) != want {
-				w.Violate("outgoing-handler-skipped", typ, fmt.Sprintf("message 34=%d (type %s) was transmitted after %d of %d registered handlers ran", n, typ, len(calls), want))
+			got := 0
+			for _, c := range calls {
+				if !defs[c.handler].late {
+					got++
+				}
+			}
+			if _, ok := wireBySeq[n]; ok && got != want {
+				w.Violate("outgoing-handler-skipped", typ, fmt.Sprintf("message 34=%d (type %s) was transmitted after %d of %d handlers registered before the traffic ran", n, typ, got, want))
 			}
 		}
 	}
@@ -375,7 +410,7 @@ func c19(w *World) {
 		for _, list := range []bool{true, false} {
 			var ids []int
 			for _, d := range defs {
-				if d.dir == "in" && d.all == list && (list || d.typ == typ) {
+				if d.dir == "in" && !d.late && d.all == list && (list || d.typ == typ) {
 					ids = append(ids, d.id)
 				}
 			}
@@ -397,6 +432,9 @@ func c19(w *World) {
 		var gotAll, gotTyp []hcall
 		sawType := false
 		for _, c := range calls {
+			if defs[c.handler].late {
+				continue // whether a handler registered mid-traffic already sees this message is not constrained
+			}
 			if !c.all && defs[c.handler].typ != typ {
 				w.Violate("incoming-handler-wrong-type", typ, fmt.Sprintf("handler registered for type %s was offered a message of type %s", defs[c.handler].typ, typ))
 			}
